@@ -78,6 +78,25 @@ MISSED_FIRST = {
  "C18e-2": "needs Scale called with one factor handed over as a slice of a shared table with spare capacity; added to C18's generator tasks",
  "C16e-3": "PaletteIndexColor with an index >= 64 again (C09 and C01 caught it); C16, C14 and C04 now pass any uint8 too",
  "C17e-3": "needs a caller-held transform slice spread into SetTransform for every graphic (C20 caught it); C17's helper step now does that through its long-lived Generator",
+ "C20f-1": "needs Reset to reach the destination through the Generator after SetTransform; a fifth of C20's generator cases now start the graphic that way",
+ "C20f-2": "needs a path with an explicit opacity of exactly 1 and a different fill-opacity; C20's icons now carry both attributes in all combinations",
+ "C20f-3": "needs a well-formed SetPathData after a malformed one on the same Generator and destination; added (what the malformed call does is not judged)",
+ "C06f-1": "needs a regular arc, a zero-radius arc and a regular arc in a row; C06's judged arc now follows 1..3 other arcs (a quarter of them degenerate) also by direct calls",
+ "C15f-3": "needs a gradient path directly after a path that was not painted (C17 and C04 caught it); a quarter of C15's gradients now follow such a path",
+ "C19f-2": "needs Reset while a rectangle of another size is set, the real rectangle afterwards; a quarter of C19's direct renderings are now set up in that order",
+ "C08f-3": "needs an arc rotation of exactly one turn; C08 accepted out == 1 for any input whose fractional part is (nearly) 0, now a whole number of turns must come out as the 1-byte zero",
+ "C11f-2": "needs two palette chunks (identifiers repeat); C11 now lists and decodes such sections and applies the listing chunk by chunk",
+ "C01f-3": "needs a viewBox whose extent exceeds float32 (C13 caught it); added to C01's programs (nothing is rendered there)",
+ "C10f-3": "needs Reset with a viewBox on the boundary of validity (no extent, or extent beyond float32); added to C10's Reset arguments",
+ "C03f-2": "needs an invalid viewBox chunk followed by a valid one; repeated identifiers were skipped wholesale as a don't-care, now a chunk that is invalid in itself must be refused whatever follows (C03, C13)",
+ "C17f-2": "needs Bytes called in the middle of a run; C17 now also encodes every program with Bytes/CSel/NSel read between the calls and demands the same bytes",
+ "C18f-1": "needs SetTransform() followed by SetTransform(T...) on one Generator while others use the zero-argument form; added to C18's generator tasks",
+ "C18f-2": "needs one render.Gradient read by several goroutines; C18's helper tasks now share one (At, accessors)",
+ "C18f-3": "needs callers that edit the slice StopOffsets returned; same shared Gradient",
+ "C13f-1": "the invalid-then-valid viewBox chunks again (C03 caught it); C13 now has sections with repeated identifiers too",
+ "C02f-1": "needs a declared chunk length that is right modulo 65536 only; C02's adversarial metadata now has lengths wrong by 2^8, 2^16, 2^24 multiples",
+ "C02f-3": "needs a run of more than five million selector opcodes (recursion per opcode, stack exhaustion); new sub-monitor with 5..9 MiB inputs of one short instruction repeated",
+ "C14f-2": "needs the same graphic decoded twice into one Renderer under different options, its first colour write being indirect and equal to its last; C14's graphics are now built that way and half of the reuse cases decode them first with another colour at that entry",
  "C20-2": "SetTransform was called once with literals; C20 now configures the generator twice from a caller-held slice and checks that the slice is unchanged",
 }
 
